@@ -594,6 +594,7 @@ func poolShape(e string) string {
 }
 
 func runC19(c *fw.Ctx) {
+	runC19Pool(c)
 	completed := map[string]int{}
 	cappedAt := map[string]string{}
 	maxPts := map[string]int{}
@@ -674,11 +675,15 @@ func trimReport(r string) string {
 
 func replayC19(raw json.RawMessage) (string, bool) {
 	var r struct {
+		Family   string `json:"family"`
 		Scenario string `json:"scenario"`
 		Prefix   []int  `json:"prefix"`
 	}
 	if err := json.Unmarshal(raw, &r); err != nil {
 		return err.Error(), false
+	}
+	if r.Family == "pool" {
+		return replayC19Pool(raw)
 	}
 	for _, sc := range c19Scenarios() {
 		if sc.Name != r.Scenario {
